@@ -857,8 +857,18 @@ func (fr *Frame) convert(x *ssa.Convert, st *State, rch Term) Val {
 			// pointer -> unsafe.Pointer: keep the address and the place
 			return Val{T: to, C: v.C, Pl: v.Pl}
 		}
-		if _, ok := to.Underlying().(*types.Pointer); ok {
-			unsup("unsafe.Pointer -> %s", to)
+		if pt, ok := to.Underlying().(*types.Pointer); ok {
+			// unsafe.Pointer -> *T: the same address viewed as a T.  Memory is
+			// typed by family (Burstall), so a cell written through *T is only
+			// related to reads through the same T: sound for code that uses one
+			// view per cell, which is what a contract about "*(*T)(p) == v" needs.
+			if v.Pl != nil && types.Identical(v.Pl.Cur, pt.Elem()) {
+				return Val{T: to, C: v.C, Pl: v.Pl}
+			}
+			if hasEmbeddedArray(pt.Elem()) {
+				unsup("unsafe.Pointer -> %s", to)
+			}
+			return Val{T: to, C: []Term{v.C[0]}}
 		}
 		return Val{T: to, C: v.C, Pl: v.Pl}
 	}
